@@ -201,6 +201,8 @@ class _Derive:
             if isinstance(a, ast.GeneratorExp):
                 return self.comp_form(a, at, depth)
             return self.seq_of(a, at, depth + 1)
+        if self._empty_ctor(e) is not None:
+            return _Seq((('empty', u(e)), u(e), e), e, set(), ('other', 'nothing: an empty collection literal'), e, 'empty collection')
         if not isinstance(e, ast.Name):
             return None
         n = e.id
@@ -226,6 +228,9 @@ class _Derive:
             if kind == 'set' and self.ordered:
                 self.und(f'{n} is a set (no order)')
             want = 'add' if kind == 'set' else 'append'
+            if not grow:
+                # concrete: the collection is created empty and nothing is ever put into it
+                return _Seq((('empty', n), n, v), v, set(), ('other', f'nothing: {n} is created empty and never filled'), d, 'empty collection')
             if len(grow) != 1 or not isinstance(grow[0], ast.Call) or grow[0].func.attr != want:
                 self.und(f'{n} starts empty and is filled by something other than exactly one .{want}() site: {[u(g)[:40] for g in grow]}')
             return self.loop_form(n, grow[0], d, depth)
@@ -271,7 +276,8 @@ class _Derive:
                 bind[target.elts[0].id] = ('other', f'position + {u(start)}') if shifted else IDX
                 bind_elem(target.elts[1], ELEM, bind)
                 return bind, self.srckey(x, at), frozenset(), notes
-            bind[target.elts[0].id] = ('other', f'rank + {u(start)}') if shifted else RANK
+            # the rank in a derived list that keeps every position of its source IS the position
+            bind[target.elts[0].id] = ('other', f'rank + {u(start)}') if shifted else (RANK if s.filt else IDX)
             bind_elem(target.elts[1], s.elt, bind)
             return bind, s.src, s.filt, notes + list(s.notes)
         if isinstance(it, ast.Call) and isinstance(it.func, ast.Name) and it.func.id == 'range' and len(it.args) == 1 and not it.keywords \
@@ -282,7 +288,7 @@ class _Derive:
             s = self.seq_of(x, at, depth + 1)
             if s is None:
                 return {target.id: IDX}, self.srckey(x, at), frozenset(), notes
-            return {target.id: RANK}, s.src, s.filt, notes + list(s.notes)
+            return {target.id: RANK if s.filt else IDX}, s.src, s.filt, notes + list(s.notes)
         s = self.seq_of(it, at, depth + 1)
         bind = {}
         if s is None:
@@ -303,11 +309,18 @@ class _Derive:
         if isinstance(e, ast.Subscript) and isinstance(e.slice, ast.Name) and bind.get(e.slice.id) in (IDX, RANK) and not isinstance(e.value, ast.Subscript):
             if bind[e.slice.id] == IDX and self.srckey(e.value, at)[0] == src[0]:
                 return ELEM
+            if bind[e.slice.id] == IDX and isinstance(e.value, ast.Name):
+                s2 = self.seq_of(e.value, at, 5)
+                if s2 is not None and s2.src[0] == src[0] and not s2.filt and not s2.notes:
+                    return s2.elt      # element i of an unfiltered derived list = what that list holds for position i
             return ('other', u(e) + (' (subscript is a rank in the filtered list, not a position of the source)' if bind[e.slice.id] == RANK else ' (another sequence)'))
         if isinstance(e, ast.Subscript) and isinstance(e.value, ast.Name) and isinstance(bind.get(e.value.id), tuple) and bind[e.value.id][0] == 'tuple' \
                 and isinstance(e.slice, ast.Constant) and isinstance(e.slice.value, int) and -len(bind[e.value.id][1]) <= e.slice.value < len(bind[e.value.id][1]):
             return bind[e.value.id][1][e.slice.value]
-        return ('other', u(e))
+        class R(ast.NodeTransformer):
+            def visit_Name(self, node):
+                return ast.Name(id=bind[node.id], ctx=ast.Load()) if bind.get(node.id) in (IDX, ELEM, RANK) else node
+        return ('other', u(R().visit(copy.deepcopy(e))))
 
     def keyfn(self, bind, src, at):
         outer = self
@@ -317,6 +330,8 @@ class _Derive:
                 c = bind.get(node.id)
                 if c in (IDX, ELEM, RANK):
                     return ast.Name(id=c, ctx=ast.Load())
+                if isinstance(c, tuple) and c[0] == 'other' and _parse_expr(c[1]) is not None:
+                    return _parse_expr(c[1])        # the variable stands for that expression of the position
                 return node
 
             def visit_Subscript(self, node):
@@ -332,11 +347,13 @@ class _Derive:
         g = comp.generators[0]
         bind, src, inherited, notes = self.binder(g.target, g.iter, at, depth)
         key = self.keyfn(bind, src, at)
+        keep = tuple(bind) + ((src[1],) if src[0][0] == 'def' else ())
         filt = set(inherited)
         for c in g.ifs:
+            c = _subst(self.fn, c, at, keep=keep)
             a = atoms(c, True, key)
             filt |= a if a is not None else {('cond', 'holds', key(c))}
-        return _Seq(src, src[2], filt, self.classify(comp.elt, bind, src, at), comp, 'comprehension', notes)
+        return _Seq(src, src[2], filt, self.classify(_subst(self.fn, comp.elt, at, keep=keep), bind, src, at), comp, 'comprehension', notes)
 
     def loop_form(self, n, call, init, depth):
         st = self.pm.get(call)
@@ -378,6 +395,26 @@ def _truth_of(test, name, assume):
     return None
 
 
+def _flag_selected_value(fn, name, flag, assume):
+    """Value of a local that is assigned once in each arm of `if <flag>: name = A else: name = B` (the statement form of a
+    conditional expression), for the given truth value of the flag; None when the definitions are not of that form."""
+    gm = guard_map(fn)
+    ds = assigns_to(fn, name)
+    if len(ds) != 2 or any(def_value(d) is None for d in ds) or reaching_def(fn, flag, ds[0]) is not PARAM or reaching_def(fn, flag, ds[1]) is not PARAM:
+        return None
+    pick = []
+    for d in ds:
+        at_ = path_atoms(gm[d])
+        if (('true', flag) in at_) == (('false', flag) in at_):
+            return None                      # not decided by the flag
+        if (('true', flag) in at_) == bool(assume):
+            pick.append(d)
+    owners = {id(block_path(fn, d)[-1][2]) for d in ds}
+    if len(pick) != 1 or len(owners) != 1 or isinstance(def_value(pick[0]), _DISPLAY):
+        return None
+    return def_value(pick[0])
+
+
 def _lookup_kind(fn, e, var, at, flag, assume, depth=0):
     """How the element expression `e` of `[e for var in ids]` looks `var` up when parameter `flag` is `assume`:
     ('get', dict) = d.get(var) -> None for an unknown key, ('item', dict) = d[var] -> KeyError, ('wrong', text), or None (unknown)."""
@@ -400,6 +437,8 @@ def _lookup_kind(fn, e, var, at, flag, assume, depth=0):
                 f = f.body if t else f.orelse
             elif isinstance(f, ast.Name):
                 _, v = _local_value(fn, f.id, at)
+                if v is None:
+                    v = _flag_selected_value(fn, f.id, flag, assume)
                 if v is None:
                     return None
                 f = v
@@ -440,6 +479,89 @@ def _require_params(rep, fn, names, at, where):
         rep.require(reaching_def(fn, nm, at) is PARAM, f'{where}: parameter {nm} is rebound before it is used here; the rule cannot evaluate the new value')
 
 
+def _flow_origin(fn, e, at):
+    """Where the value of expression `e` (evaluated at statement `at`) comes from, following plain local copies:
+    ('param', name) | ('expr', node, statement evaluating it) | None (no unique definition)."""
+    for _ in range(8):
+        if not isinstance(e, ast.Name):
+            return ('expr', e, at)
+        d = reaching_def(fn, e.id, at)
+        if d is PARAM:
+            return ('param', e.id)
+        v = def_value(d) if isinstance(d, ast.stmt) else None
+        if v is None:
+            return None
+        e, at = v, d
+    return None
+
+
+def _id_map_flow(m, fi, mapcall, at, gset_param, attr_param):
+    """For a call `_map_ids_to_genomes(a0, a1)` evaluated at `at`: (a0 is the genome-set parameter, a1 is the value of
+    `_check_genome_id_attr(<id attribute parameter>)`, description) - decided on value flow, not on the names used."""
+    fn = fi.node
+    a = list(mapcall.args)
+    if len(a) != 2 or mapcall.keywords or any(isinstance(x, ast.Starred) for x in a):
+        return False, False, u(mapcall)
+    o0, o1 = _flow_origin(fn, a[0], at), _flow_origin(fn, a[1], at)
+    ok_set = o0 == ('param', gset_param)
+    ok_val, seen = False, str(o1[:2]) if o1 and o1[0] == 'param' else (u(o1[1]) if o1 else 'no unique definition')
+    if o1 and o1[0] == 'expr' and isinstance(o1[1], ast.Call) and m.resolve_call(fi, o1[1]) == f'{MOD}._check_genome_id_attr' and len(o1[1].args) == 1 and not o1[1].keywords:
+        ok_val = _flow_origin(fn, o1[1].args[0], o1[2]) == ('param', attr_param)
+    return ok_set, ok_val, f'{u(mapcall)} with {u(a[1])} <- {seen}'
+
+
+def _validated_attr(m, fi, e, at, attr_param):
+    """Is the value of `e` at `at` the result of `_check_genome_id_attr(<id attribute parameter>)` (followed through plain copies)?"""
+    o = _flow_origin(fi.node, e, at)
+    return bool(o and o[0] == 'expr' and isinstance(o[1], ast.Call) and m.resolve_call(fi, o[1]) == f'{MOD}._check_genome_id_attr' and len(o[1].args) == 1 and not o[1].keywords
+                and _flow_origin(fi.node, o[1].args[0], o[2]) == ('param', attr_param))
+
+
+def _null_id_guard(rep, m, fi, gset_param, attr_param, rets):
+    """R7 at one function that looks ids up in the id map: before every `return`, the case "some genome of the set has no value
+    for the id attribute" (then None is a key of the map and pairing by id is not defined) has raised.  Accepted spellings of
+    the guard statement:  `_check_genomes_have_ids(<genome set>, <validated attribute>)`  or  `raise ...` ;  executed on every path
+    to the return, or on every such path on which `None in <the id map>` holds (no None key <=> no genome without id, R2).
+    -> (ok, description)"""
+    fn = fi.node
+    gm = guard_map(fn)
+    allnames = tuple(names_in(fn))           # conditions are compared as written (locals not read through)
+    seen, guards = [], []
+    for s in stmts_in(fn.body):
+        is_call = isinstance(s, ast.Expr) and isinstance(s.value, ast.Call) and m.resolve_call(fi, s.value) == f'{MOD}._check_genomes_have_ids'
+        if not (is_call or isinstance(s, ast.Raise)):
+            continue
+        cond = _facts(fn, gm[s], keep=allnames)
+        none_key = [a for a in cond if a[0] in ('in', 'notin') and a[1] == 'None']
+        if isinstance(s, ast.Raise) and not none_key:
+            continue            # some other error path
+        if none_key:
+            dn = _parse_expr(none_key[0][2])
+            owner = next((o for (_, _, o) in reversed(block_path(fn, s)) if isinstance(o, ast.If)), None)
+            o = _flow_origin(fn, dn, owner) if isinstance(dn, ast.Name) and owner is not None else None
+            is_map = bool(o and o[0] == 'expr' and isinstance(o[1], ast.Call) and m.resolve_call(fi, o[1]) == f'{MOD}._map_ids_to_genomes'
+                          and _id_map_flow(m, fi, o[1], o[2], gset_param, attr_param)[:2] == (True, True))
+            if len(none_key) > 1 or none_key[0][0] != 'in' or not is_map:
+                seen.append(f'{u(s)[:50]} under {none_key}: not `None in <the id map of this genome set>`')
+                continue
+        if is_call:
+            a = s.value.args
+            okargs = len(a) == 2 and not s.value.keywords and _flow_origin(fn, a[0], s) == ('param', gset_param) and _validated_attr(m, fi, a[1], s, attr_param)
+            if not okargs:
+                seen.append(f'{u(s)[:70]}: not (this genome set, the validated id attribute)')
+                continue
+        guards.append((s, cond - set(none_key)))
+    unguarded = []
+    for r in rets:
+        fr = _facts(fn, gm[r], keep=allnames)
+        tr = block_path(fn, r)[0][1]
+        if not any(c <= fr and (block_path(fn, g)[0][1] < tr or (block_path(fn, g)[0][1] == tr and g.lineno < r.lineno)) for (g, c) in guards):
+            unguarded.append(u(r)[:50])
+    if guards and not unguarded:
+        return True, [u(g)[:60] for (g, _) in guards]
+    return False, (seen + [f'{u(g)[:50]} only under {sorted(c)}' for (g, c) in guards if c] + [f'unguarded: {x}' for x in unguarded]) or 'no NULL-id guard'
+
+
 def _parse_expr(text):
     try:
         return ast.parse(text, mode='eval').body
@@ -448,14 +570,277 @@ def _parse_expr(text):
 
 
 def _fall_through_guards(fnode, gm):
-    """Guards that hold when control falls off the end of fnode's body (None when it never does)."""
-    last = fnode.body[-1]
-    g = list(gm[last])
-    if isinstance(last, ast.If) and not last.orelse and always_exits(last.body):
-        g.append((last.test, False))
-    elif always_exits([last]):
-        return None
+    """Guards that hold when control falls off the end of fnode's body (None when it never does).  A final `if` one arm of
+    which always exits (raise / return) contributes its test with the polarity of the arm that falls through, recursively."""
+    block = fnode.body
+    g = []
+    for _ in range(16):
+        last = block[-1]
+        g = list(gm[last])
+        if isinstance(last, ast.If):
+            be = always_exits(last.body)
+            oe = always_exits(last.orelse) if last.orelse else False
+            if be and oe:
+                return None
+            if be:
+                g.append((last.test, False))
+                if not last.orelse:
+                    return g
+                block = last.orelse
+                continue
+            if oe:
+                block = last.body
+                continue
+            return g      # both arms fall through: only what held before the `if`
+        if isinstance(last, (ast.With, ast.AsyncWith)):
+            block = last.body
+            continue
+        return None if always_exits([last]) else g
     return g
+
+
+def _on_every_normal_path(fn, stmt):
+    """Is `stmt` executed (exactly once) on every path that leaves fn normally?  True for a statement of the body, or of the arm
+    of an `if` whose other arm always exits by raise/return, recursively; loops and try blocks are not evaluated (False)."""
+    bp = block_path(fn, stmt)
+    if bp is None:
+        return False
+    for k, (block, idx, owner) in enumerate(bp):
+        if owner is fn or isinstance(owner, (ast.With, ast.AsyncWith)):
+            continue
+        if isinstance(owner, ast.If):
+            other = owner.orelse if block is owner.body else owner.body
+            if other and always_exits(other):
+                continue
+        return False
+    return True
+
+
+class _Rename(ast.NodeTransformer):
+    def __init__(self, mp_):
+        self.mp = mp_
+
+    def visit_Name(self, node):
+        return copy.deepcopy(self.mp[node.id]) if node.id in self.mp else node
+
+
+def _rename(node, mp_):
+    return _Rename(mp_).visit(copy.deepcopy(node)) if mp_ else node
+
+
+class _FileGroup:
+    """How one returned file is obtained: from which collection (`sq`: source + suffix filter), under which established fact, and
+    what happens otherwise."""
+    pos = None
+    lazy = False
+
+
+class _LocateCtx:
+    """R5 evaluated inside one function (locate_files itself, or a helper it delegates to, with the helper's parameters mapped
+    to the caller's argument expressions)."""
+
+    def __init__(self, m, fi, argmap=None, outer=None, depth=0):
+        self.m, self.fi, self.ln = m, fi, fi.node
+        self.gml = guard_map(self.ln)
+        self.dl = _Derive(self.ln, self.gml, fi.name, ordered=False)
+        self.helpers = [s for s in self.ln.body if isinstance(s, ast.FunctionDef)]
+        self.argmap, self.outer, self.depth = argmap or {}, outer, depth
+
+    # -- nested checking helpers (known symbols, so never expanded by N8): summarised at their call sites
+    def helper_summary(self, h, call):
+        """(facts holding after `h(args)` returned normally, [(raise statement, facts under which it is raised)]), in terms of the arguments."""
+        hp = [a.arg for a in h.args.args]
+        if len(call.args) > len(hp) or call.keywords or any(isinstance(a, ast.Starred) for a in call.args) or h.args.vararg or h.args.kwarg:
+            return set(), []
+        mp_ = dict(zip(hp, call.args))
+        if any(any(binds_deep(s, p) for s in h.body) for p in mp_):
+            return set(), []
+        if any(isinstance(a, _DISPLAY) for a in call.args):
+            return set(), []        # a collection built inside the call is a fresh object: a fact about it says nothing about any other (equal-looking) one
+        key = lambda n: u(_rename(n, mp_))   # noqa: E731
+        hg = guard_map(h)
+        post = set()
+        ft = _fall_through_guards(h, hg)
+        if ft is not None and not any(isinstance(s, ast.Return) for s in stmts_in(h.body)):
+            post = _facts(h, ft, key)
+        return post, [(r, _facts(h, hg[r], key)) for r in stmts_in(h.body) if isinstance(r, ast.Raise)]
+
+    def _helper_calls(self, stmts):
+        for s in stmts:
+            if isinstance(s, ast.Expr) and isinstance(s.value, ast.Call) and isinstance(s.value.func, ast.Name):
+                for h in self.helpers:
+                    if h.name == s.value.func.id and h.lineno < s.lineno and len([x for x in self.helpers if x.name == h.name]) == 1:
+                        yield h, s.value
+
+    def facts_at(self, st, keep=()):
+        """Path facts at statement st, plus the post-conditions of the nested checking helpers called (as plain statements of
+        the function body) before the top-level statement that contains st."""
+        out = _facts(self.ln, self.gml[st], keep=keep)
+        top = block_path(self.ln, st)[0][1]
+        for h, call in self._helper_calls(self.ln.body[:top]):
+            out |= self.helper_summary(h, call)[0]
+        return out
+
+    def error_sites(self, mname):
+        """Raise statements reached when the number of matches in `mname` is not 1."""
+        atom = ('ne', '1', f'len({mname})')
+        out = [r for r in stmts_in(self.ln.body) if isinstance(r, ast.Raise) and atom in _facts(self.ln, self.gml[r])]
+        for h, call in self._helper_calls(self.ln.body):
+            out += [r for (r, f) in self.helper_summary(h, call)[1] if atom in f]
+        return out
+
+    # -- values that come in through parameters
+    def outward(self, expr):
+        """The expression in terms of the outermost caller: parameters of delegating helpers replaced by the argument
+        expressions they were called with."""
+        cx = self
+        while cx is not None:
+            expr = _rename(expr, cx.argmap)
+            cx = cx.outer
+        return expr
+
+    def constant(self, expr, what):
+        """Literal value of an expression that is a literal, a module-level constant, or a parameter bound to one of those by the caller."""
+        cx = self
+        while cx is not None:
+            if not (names_in(expr) & set(cx.argmap)):
+                try:
+                    return self.m.const_value(cx.fi.module, expr)
+                except Undecided:
+                    raise Undecided(f'{self.fi.name}: {what} is not a literal or a module-level constant: {u(expr)}')
+            expr = _rename(expr, cx.argmap)
+            cx = cx.outer
+        try:
+            return ast.literal_eval(expr)
+        except Exception:
+            raise Undecided(f'{self.fi.name}: {what} is not a literal or a module-level constant: {u(expr)}')
+
+    # -- the file
+    def file_of(self, rep, value, st, label):
+        """_FileGroup for the file that `value` (evaluated at statement `st`) denotes; None after recording a violation."""
+        m, ln, where = self.m, self.ln, self.fi.name
+        o = _flow_origin(ln, value, st)
+        rep.require(o is not None and o[0] == 'expr', f'{where}: {label} has no unique definition that could be followed: {u(value)[:80]}')
+        tv, take = o[1], o[2]
+        gr = _FileGroup()
+        gr.fi, gr.take = self.fi, take
+        mexpr = None
+        if isinstance(tv, ast.Call) and isinstance(tv.func, ast.Attribute) and tv.func.attr == 'pop' and not tv.keywords and (not tv.args or (len(tv.args) == 1 and is_const(tv.args[0], 0))):
+            mexpr = tv.func.value
+        elif isinstance(tv, ast.Subscript) and (is_const(tv.slice, 0) or u(tv.slice) == '-1'):
+            mexpr = tv.value
+        elif isinstance(tv, ast.Call) and u(tv.func) == 'next' and len(tv.args) == 1 and not tv.keywords and isinstance(tv.args[0], ast.Call) and u(tv.args[0].func) == 'iter' and len(tv.args[0].args) == 1:
+            mexpr = tv.args[0].args[0]
+        elif isinstance(tv, ast.Call) and u(tv.func) == 'next' and len(tv.args) == 2 and not tv.keywords and isinstance(tv.args[0], (ast.Name, ast.GeneratorExp)) and is_none(tv.args[1]):
+            return self.lazy_single(rep, gr, tv, take, value, st, label)
+        elif isinstance(tv, ast.Call) and self.depth < 3:
+            q = m.resolve_call(self.fi, tv)
+            H = m.functions.get(q) if q else None
+            if H is not None and H.cls is None and isinstance(H.node, ast.FunctionDef) and H.node is not ln:
+                return self.delegated(rep, H, tv, take, label)
+        rep.require(isinstance(mexpr, (ast.Name, ast.ListComp, ast.SetComp)), f'{where}: unrecognised way of taking the single file: {label} = {u(tv)[:80]}')
+        mname = mexpr.id if isinstance(mexpr, ast.Name) else u(mexpr)
+        if isinstance(mexpr, ast.Name) and reaching_def(ln, mexpr.id, take) is None and assigns_to(ln, mexpr.id):
+            rep.add('R5', self.fi.site(take), 'the file is taken from a match set that was built and checked before', False, expected=f'{mexpr.id} built and checked to hold exactly one file first',
+                    found=f'{u(take)[:60]}: {mexpr.id} is only assigned later', stmt=f'single [{label}]')
+            return None
+        sq = self.dl.seq_of(mexpr, take)
+        rep.require(sq is not None, f'{where}: {mname} is not a collection built by a recognised construction (comprehension / append loop)')
+        if not self.group_of(rep, gr, sq, mname):
+            return None
+        fa = self.facts_at(take)
+        # facts that say nothing about the entry and still hold where the file is taken are the context the collection was built
+        # in, not a selection of entries
+        gr.extra = [a for a in gr.extra if any(sym in str(x) for x in a[1:] for sym in (IDX, ELEM, RANK)) or a not in fa]
+        gr.single_ok = ('eq', '1', f'len({mname})') in fa
+        gr.single_expected, gr.single_found = f'len({mname}) == 1 established before {u(take)[:40]}', sorted(fa)
+        gr.errs, gr.errs_complete = self.error_sites(mname), True
+        return gr
+
+    def group_of(self, rep, gr, sq, name):
+        """Suffix group, further conditions and source of the collection `sq` the file is taken from."""
+        gr.sq, gr.name = sq, name
+        sufs, extra = None, []
+        for a in sq.filt:
+            if a[0] == 'in' and a[1] == f'{ELEM}.suffix' and sufs is None:
+                px = _parse_expr(a[2])
+                rep.require(px is not None, f'{self.fi.name}: suffix group {a[2]} cannot be read')
+                sufs = self.constant(px, f'suffix group of {name}')
+                rep.require(isinstance(sufs, (tuple, list, set, frozenset)) and all(isinstance(x, str) for x in sufs), f'{self.fi.name}: suffix group of {name} is not a collection of strings: {sufs!r}')
+                sufs = tuple(sufs)
+            else:
+                extra.append(a)
+        if sufs is None and any(a[0] == 'notin' and a[1] == f'{ELEM}.suffix' for a in sq.filt):
+            rep.add('R5', self.fi.site(sq.site), 'a match set holds the entries whose suffix IS in the group', False, expected='<entry>.suffix in <group>', found=sorted(sq.filt), stmt=f'suffix membership [{name}]')
+            return False
+        rep.require(sufs is not None, f'{self.fi.name}: {name} is not selected by `<entry>.suffix in <literal>`: {sorted(sq.filt)}')
+        gr.sufs, gr.extra = sufs, extra
+        site_st = sq.site if isinstance(sq.site, ast.stmt) else enclosing_stmt(self.ln, sq.site, self.dl.pm)
+        srcx, gr.wrapped = _strip_materialise(_subst(self.ln, sq.src_node, site_st))
+        gr.src_text = u(self.outward(srcx))
+        return True
+
+    def lazy_single(self, rep, gr, first, take, value, st, label):
+        """`x = next(G, None)` with G a generator over the filtered directory entries: x is THE single match exactly when x is not
+        None and a second `next(G, None)` is None (entries are never None).  Both facts must hold where x is returned / used."""
+        ln, where = self.ln, self.fi.name
+        rep.require(not any(isinstance(s, (ast.For, ast.While, ast.Try)) for s in stmts_in(ln.body)), f'{where}: loops / try around {u(first)[:50]} are not evaluated')
+        if isinstance(first.args[0], ast.GeneratorExp):
+            # the generator is written inside the call: nothing else can ever pull a second element from it
+            gname, gd, gv, nexts = 'the generator', take, first.args[0], [first]
+        else:
+            gname = first.args[0].id
+            gd = reaching_def(ln, gname, take)
+            gv = def_value(gd) if isinstance(gd, ast.stmt) else None
+            rep.require(isinstance(gv, ast.GeneratorExp) and len(assigns_to(ln, gname)) == 1, f'{where}: {gname} in {u(first)} is not a generator expression bound once')
+            nexts = [c for c in calls_in(ln) if u(c.func) == 'next' and c.args and isinstance(c.args[0], ast.Name) and c.args[0].id == gname]
+            loads = [n for n in ast.walk(ln) if isinstance(n, ast.Name) and n.id == gname and isinstance(n.ctx, ast.Load)]
+            rep.require(len(loads) == len(nexts) and all(len(c.args) == 2 and not c.keywords and is_none(c.args[1]) for c in nexts),
+                        f'{where}: the generator {gname} is consumed by something other than next({gname}, None)')
+        rep.require(isinstance(take, ast.Assign) and len(take.targets) == 1 and isinstance(take.targets[0], ast.Name) and take in ln.body and take.value is first,
+                    f'{where}: {u(take)[:60]} is not an unconditional statement of the function body')
+        xname = take.targets[0].id
+        rep.require(len(assigns_to(ln, xname)) == 1, f'{where}: {xname} is bound more than once')
+        sq = self.dl.comp_form(gv, gd, 0)
+        if not self.group_of(rep, gr, sq, f'{gname} (generator)'):
+            return None
+        gr.lazy = True
+        fa = self.facts_at(st, keep=(xname,))
+        second = u(nexts[1]) if len(nexts) == 2 else None
+        later = len(nexts) == 2 and enclosing_stmt(ln, nexts[1], self.dl.pm).lineno > take.lineno
+        gr.single_ok = len(nexts) == 2 and nexts[0] is first and later and ('isnot', 'None', xname) in fa and ('is', 'None', second) in fa
+        gr.single_expected = f'{xname} is not None and a second next({gname}, None) is None where {xname} is used'
+        gr.single_found = sorted(fa) + [f'{len(nexts)} next({gname}, None) calls' + ('' if nexts[0] is first else f'; {xname} is not the first of them')]
+        gr.errs = [r for r in stmts_in(ln.body) if isinstance(r, ast.Raise)]
+        gr.errs_complete = always_exits(ln.body)      # whatever does not reach the use of x raises
+        return gr
+
+    def delegated(self, rep, H, call, take, label):
+        """The file is the result of a module-level function of the package: evaluate that function with its parameters bound to
+        the argument expressions.  It must return through exactly one `return <file>` and otherwise raise."""
+        hp = [a.arg for a in H.node.args.posonlyargs + H.node.args.args]
+        rep.require(not call.keywords and not any(isinstance(a, ast.Starred) for a in call.args) and len(call.args) <= len(hp) and not H.node.args.vararg and not H.node.args.kwarg,
+                    f'{self.fi.name}: call {u(call)[:80]} binds parameters in a way the rule does not follow')
+        args = [_subst(self.ln, a, take) for a in call.args]
+        amap = dict(zip(hp, args))
+        for p in hp[len(args):]:
+            dflt = H.param_default(p)
+            rep.require(dflt is not None, f'{H.name}: parameter {p} gets no argument in {u(call)[:60]}')
+            amap[p] = dflt
+        rep.require(not any(any(binds_deep(s, p) for s in H.node.body) for p in hp), f'{H.name}: a parameter is rebound inside the helper')
+        rets = [s for s in stmts_in(H.node.body) if isinstance(s, ast.Return)]
+        rep.require(len(rets) == 1 and rets[0].value is not None and not any(isinstance(n, (ast.Yield, ast.YieldFrom)) for n in ast.walk(H.node)),
+                    f'{H.name}: expected exactly one `return <file>`, found {[u(r)[:40] for r in rets]}')
+        hcx = _LocateCtx(self.m, H, amap, self, self.depth + 1)
+        gr = hcx.file_of(rep, rets[0].value, rets[0], f'{label} via {H.name}')
+        if gr is None:
+            return None
+        # the file exists only where the helper returns; every other way out of the helper must be a raise (checked by the caller
+        # for its class), never falling off the end with None
+        gr.errs_complete = gr.errs_complete and always_exits(H.node.body)
+        if gr.fi is H:
+            gr.errs = [r for r in stmts_in(H.node.body) if isinstance(r, ast.Raise)] if not gr.errs else gr.errs
+        return gr
 
 
 def check(ctx):
@@ -465,6 +850,7 @@ def check(ctx):
     rep.rule('R3', 'ReferenceDatabase.__init__: raise on id_attr None; raise when matched count != genome count; ids and id_attr from the same signatures object')
     rep.rule('R4', '_check_genome_id_attr accepts only Genome.ID_ATTRS members')
     rep.rule('R5', 'locate_files: each suffix group must match exactly one file (n != 1 raises DatabaseLoadError) before it is taken')
+    rep.rule('R7', 'premise of R2: a genome set with a NULL id never yields a lookup (count query > 0, or a None key of the id map, raises before any id is looked up)')
     rep.rule('R6', 'query(): signatures, ref_indices and genomes all come from the one db object; loaders pass the loaded objects to the constructor')
     rep.trusted += ['SQLAlchemy Query.add_columns yields rows (entity, added column)', 'dict.get returns None for an unknown id']
 
@@ -489,24 +875,54 @@ def check(ctx):
             found='ok' if G.src[0] == I.src[0] and not diff else f'genomes: {G.describe()} / indices: {I.describe()}', stmt='appends same block')
     rep.add('R1', fi.site(I.site), 'index and genome are bound together by the position in the lookup list', not G.notes and not I.notes and G.src[0] == I.src[0],
             expected='for i, g in enumerate(<lookup list>) or an equivalent pairing of position and entry', found=(G.describe(), I.describe()), stmt='enumerate')
-    rep.add('R1', fi.site(G.site), 'the genome list holds the entry at the enumerated position', G.elt == ELEM, expected='lookup[i]', found=G.describe(), stmt='append genome')
+    # Two ways to pair an entry with its position: (A) enumerate the per-id lookup list of genomes_by_id(strict=False);
+    # (B) enumerate the ids themselves and look each one up in the id map (`d.get(id)`): then the entry is that lookup.
+    sv = G.src_node
+    by_ids = G.src[0] == ('name', ids) or (G.src[0][0] == 'def' and isinstance(sv, ast.AST) and _param_origin(fn, sv, enclosing_stmt(fn, sv, dv.pm)) == ids)
+    entry, receiver, strict_lookup = ELEM, None, False
+    if by_ids and isinstance(G.elt, tuple) and G.elt[0] == 'other':
+        pe = _parse_expr(G.elt[1])
+        if isinstance(pe, ast.Call) and isinstance(pe.func, ast.Attribute) and pe.func.attr == 'get' and not pe.keywords and pe.args and u(pe.args[0]) == ELEM \
+                and (len(pe.args) == 1 or (len(pe.args) == 2 and is_none(pe.args[1]))):
+            entry, receiver = G.elt, u(pe.func.value)
+        elif (isinstance(pe, ast.Subscript) and u(pe.slice) == ELEM) or (isinstance(pe, ast.Call) and isinstance(pe.func, ast.Attribute) and pe.func.attr == '__getitem__' and [u(a) for a in pe.args] == [ELEM]):
+            entry, receiver, strict_lookup = G.elt, u(pe.value if isinstance(pe, ast.Subscript) else pe.func.value), True
+        else:
+            raise Undecided(f'genomes_by_id_subset: the genome list holds {G.elt[1]} for each id: not a recognised lookup of the id')
+    entry_t = entry if isinstance(entry, str) else entry[1]
+    rep.add('R1', fi.site(G.site), 'the genome list holds the entry at the enumerated position', G.elt == entry and (not by_ids or receiver is not None),
+            expected='lookup[i]' if not by_ids else '<id map>.get(ids[i])', found=G.describe(), stmt='append genome')
     rep.add('R1', fi.site(I.site), 'the index list holds the position in the signature-ID list (not a running count)', I.elt == IDX,
             expected='i', found=I.describe(), stmt='append index')
     for sq, name in ((G, 'genome'), (I, 'index')):
-        rep.add('R1', fi.site(sq.site), f'{name} is kept only for `entry is not None` (unmatched signature IDs are skipped together)', ('isnot', ELEM, 'None') in sq.filt or ('isnot', 'None', ELEM) in sq.filt,
+        rep.add('R1', fi.site(sq.site), f'{name} is kept only for `entry is not None` (unmatched signature IDs are skipped together)', ('isnot', entry_t, 'None') in sq.filt or ('isnot', 'None', entry_t) in sq.filt,
                 expected='<entry> is not None', found=sorted(sq.filt), stmt=f'{name} guard')
-    sv = G.src_node
     site_l = sv if isinstance(sv, ast.AST) and hasattr(sv, 'lineno') else rets[0]
-    lst_ = enclosing_stmt(fn, sv, dv.pm) if isinstance(sv, ast.Call) else None
-    ok = isinstance(sv, ast.Call) and m.resolve_call(fi, sv) == f'{MOD}.genomes_by_id' and len(sv.args) >= 3 and [u(_subst(fn, a, lst_)) for a in sv.args[:2]] == [gset, id_attr] \
-        and _param_origin(fn, sv.args[2], lst_) == ids
-    strict = get_arg(sv, 3, 'strict') if isinstance(sv, ast.Call) else None
-    rep.add('R1', fi.site(site_l), 'the enumerated list is the per-ID lookup of the given ids', ok, expected=f'genomes_by_id({gset}, {id_attr}, {ids}, strict=False)', found=u(sv),
-            stmt='lookup list')
-    if ok:
-        _require_params(rep, fn, (gset, id_attr), lst_, 'genomes_by_id_subset')
-    rep.add('R1', fi.site(site_l), 'the lookup is non-strict (unrelated signatures in the file are tolerated)', strict is not None and strict is not Ellipsis and is_const(strict, False),
-            expected='strict=False', found=u(strict) if strict not in (None, Ellipsis) else strict, stmt='strict flag')
+    if by_ids and receiver is not None:
+        maps = [c for c in calls_in(fn) if m.resolve_call(fi, c) == f'{MOD}._map_ids_to_genomes']
+        rep.require(len(maps) == 1, f'genomes_by_id_subset: ids are looked up in {receiver}; expected exactly one _map_ids_to_genomes call to compare it with, found {len(maps)}')
+        mst_ = enclosing_stmt(fn, maps[0], dv.pm)
+        rep.require(not any(isinstance(o, (ast.For, ast.While)) for (_, _, o) in block_path(fn, mst_)) and u(_subst(fn, maps[0], mst_)) == receiver,
+                    f'genomes_by_id_subset: cannot tell that {receiver} is the id map built by {u(maps[0])[:60]}')
+        ok_set, ok_val, seen_m = _id_map_flow(m, fi, maps[0], mst_, gset, id_attr)
+        rep.add('R1', fi.site(maps[0]), 'the enumerated list is the per-ID lookup of the given ids', ok_set, expected=f'_map_ids_to_genomes({gset}, <validated {id_attr}>).get(id) for each id of {ids}', found=seen_m,
+                stmt='lookup list')
+        rep.add('R4', fi.site(maps[0]), 'the id attribute is validated before use', ok_val, expected=f'_check_genome_id_attr({id_attr})', found=seen_m, stmt='id_attr validation [subset]')
+        rep.add('R1', fi.site(G.site), 'the lookup is non-strict (unrelated signatures in the file are tolerated)', not strict_lookup, expected='<id map>.get(id)', found=G.elt[1], stmt='strict flag')
+        okn_s, seen_ns = _null_id_guard(rep, m, fi, gset, id_attr, rets)
+        rep.add('R7', fi.site(), 'no id is looked up for a genome set in which some genome has no value for the id attribute', okn_s,
+                expected=f'_check_genomes_have_ids({gset}, <validated {id_attr}>) (or a raise under `None in <id map>`) before the lookup', found=seen_ns, stmt='null-id guard [subset]')
+    else:
+        lst_ = enclosing_stmt(fn, sv, dv.pm) if isinstance(sv, ast.Call) else None
+        ok = isinstance(sv, ast.Call) and m.resolve_call(fi, sv) == f'{MOD}.genomes_by_id' and len(sv.args) >= 3 and [u(_subst(fn, a, lst_)) for a in sv.args[:2]] == [gset, id_attr] \
+            and _param_origin(fn, sv.args[2], lst_) == ids
+        strict = get_arg(sv, 3, 'strict') if isinstance(sv, ast.Call) else None
+        rep.add('R1', fi.site(site_l), 'the enumerated list is the per-ID lookup of the given ids', ok, expected=f'genomes_by_id({gset}, {id_attr}, {ids}, strict=False)', found=u(sv),
+                stmt='lookup list')
+        if ok:
+            _require_params(rep, fn, (gset, id_attr), lst_, 'genomes_by_id_subset')
+        rep.add('R1', fi.site(site_l), 'the lookup is non-strict (unrelated signatures in the file are tolerated)', strict is not None and strict is not Ellipsis and is_const(strict, False),
+                expected='strict=False', found=u(strict) if strict not in (None, Ellipsis) else strict, stmt='strict flag')
     for sq, lst in ((G, gout), (I, iout)):
         if sq.how == 'append loop':
             ds = assigns_to(fn, lst)
@@ -523,18 +939,31 @@ def check(ctx):
     rep.require(len(bp_) > 3, 'genomes_by_id: no strict parameter')
     strict_b = bp_[3]
     rets_b = [s for s in stmts_in(fb.node.body) if isinstance(s, ast.Return)]
-    dname = None
+    dname, dname_at = None, None
     cases = []
+    def value_cases(v, modes):
+        """(value expression, strict modes under which it is the result): a conditional expression on the strict flag is a case split"""
+        if isinstance(v, ast.IfExp):
+            out = []
+            for mode in modes:
+                t_ = _truth_of(v.test, strict_b, mode)
+                rep.require(t_ is not None, f'genomes_by_id: result is conditional on something other than {strict_b}: {u(v.test)}')
+                out += value_cases(v.body if t_ else v.orelse, [mode])
+            return out
+        return [(v, list(modes))]
+
+    flat = []
     for r in rets_b:
         at = _facts(fb.node, gmb[r])
-        v = r.value
+        rep.require(reaching_def(fb.node, strict_b, r) is PARAM, f'genomes_by_id: parameter {strict_b} is rebound before {u(r)[:60]}')
+        flat += [(r, v_, ms) for (v_, ms) in value_cases(r.value, [True] if ('true', strict_b) in at else [False] if ('false', strict_b) in at else [True, False])]
+    for r, v, modes in flat:
+        v0 = v
         if isinstance(v, ast.Call) and isinstance(v.func, ast.Name) and v.func.id == 'list' and len(v.args) == 1 and not v.keywords and isinstance(v.args[0], ast.GeneratorExp):
             v = v.args[0]
         okc = isinstance(v, (ast.ListComp, ast.GeneratorExp)) and len(v.generators) == 1 and isinstance(v.generators[0].target, ast.Name)
-        rep.require(okc, f'genomes_by_id: return is not a list comprehension: {u(r.value)}')
-        rep.require(reaching_def(fb.node, strict_b, r) is PARAM, f'genomes_by_id: parameter {strict_b} is rebound before {u(r)[:60]}')
+        rep.require(okc, f'genomes_by_id: return is not a list comprehension: {u(v0)}')
         one2one = not v.generators[0].ifs and _param_origin(fb.node, v.generators[0].iter, r) == ids_b
-        modes = [True] if ('true', strict_b) in at else [False] if ('false', strict_b) in at else [True, False]
         t = v.generators[0].target.id
         for mode in modes:
             cases.append((r, mode))
@@ -547,7 +976,7 @@ def check(ctx):
                 rep.add('R1', fb.site(r), 'non-strict lookup yields one entry per id, None for unknown ids, in id order', k[0] == 'get', expected=f'[d.get({t}) for {t} in {ids_b}]', found=u(v) + f' -> {k}',
                         stmt='non-strict lookup')
                 if k[0] == 'get':
-                    dname = k[1]
+                    dname, dname_at = k[1], r
             else:
                 rep.add('R1', fb.site(r), 'strict lookup raises KeyError for unknown ids', k[0] == 'item', expected=f'[d[{t}] for {t} in {ids_b}]', found=u(v) + f' -> {k}', stmt='strict lookup')
     rep.floor('R1', 'lookup cases (return x strict mode) in genomes_by_id', len(cases), 2)
@@ -556,13 +985,45 @@ def check(ctx):
     rep.account_returns('R1', fi, rets, 'matched (genomes, indices) pair')
     rep.require(dname is not None, 'genomes_by_id: non-strict lookup dict not identified')
     dd = assigns_to(fb.node, dname)
-    okd = len(dd) == 1 and isinstance(def_value(dd[0]), ast.Call) and m.resolve_call(fb, def_value(dd[0])) == f'{MOD}._map_ids_to_genomes' \
-        and u(def_value(dd[0]).args[0]) == bp_[0]
-    rep.add('R1', fb.site(dd[0] if dd else None), 'the lookup dict is the id map of this genome set', okd, expected=f'_map_ids_to_genomes({bp_[0]}, id_attr)', found=[u(x) for x in dd],
+    od = _flow_origin(fb.node, _parse_expr(dname), dname_at) if _parse_expr(dname) is not None else None
+    is_map = len(dd) <= 1 and bool(od) and od[0] == 'expr' and isinstance(od[1], ast.Call) and m.resolve_call(fb, od[1]) == f'{MOD}._map_ids_to_genomes'
+    ok_set, ok_val, seen_m = _id_map_flow(m, fb, od[1], od[2], bp_[0], bp_[1]) if is_map else (False, False, [u(x) for x in dd])
+    rep.add('R1', fb.site(dd[0] if dd else None), 'the lookup dict is the id map of this genome set', is_map and ok_set, expected=f'_map_ids_to_genomes({bp_[0]}, id_attr)', found=seen_m,
             stmt='lookup dict')
-    chk = [s for s in fb.node.body if isinstance(s, ast.Assign) and isinstance(s.value, ast.Call) and m.resolve_call(fb, s.value) == f'{MOD}._check_genome_id_attr']
-    rep.add('R4', fb.site(chk[0] if chk else None), 'the id attribute is validated before use', len(chk) == 1 and u(chk[0].targets[0]) == bp_[1] and dd and chk[0].lineno < dd[0].lineno,
-            expected=f'{bp_[1]} = _check_genome_id_attr({bp_[1]})', found=[u(c) for c in chk], stmt='id_attr validation')
+    rep.add('R4', fb.site(dd[0] if dd else None), 'the id attribute is validated before use', is_map and ok_val,
+            expected=f'_map_ids_to_genomes({bp_[0]}, _check_genome_id_attr({bp_[1]}))', found=seen_m, stmt='id_attr validation')
+    okn, seen_n = _null_id_guard(rep, m, fb, bp_[0], bp_[1], rets_b)
+    rep.add('R7', fb.site(), 'no id is looked up for a genome set in which some genome has no value for the id attribute', okn,
+            expected=f'_check_genomes_have_ids({bp_[0]}, <validated {bp_[1]}>) (or a raise under `None in <id map>`) before every return', found=seen_n, stmt='null-id guard')
+    # _check_genomes_have_ids: raises exactly when the count of genomes of the set whose id attribute IS NULL is positive
+    fh = m.func(f'{MOD}._check_genomes_have_ids')
+    rep.functions.add(fh.qualname)
+    hp_ = fh.params()
+    gmh = guard_map(fh.node)
+    counts = [c for c in calls_in(fh.node) if callee_attr(c) == 'count' and not c.args and u(c).startswith(f'{hp_[0]}.genomes')]
+    rep.require(len(counts) == 1, f'_check_genomes_have_ids: expected one count() query on {hp_[0]}.genomes, found {len(counts)}')
+    qn = counts[0]
+    qtext = u(qn)
+    filters = [c for c in calls_in(qn) if callee_attr(c) in ('filter', 'where')]
+    is_null = False
+    if len(filters) == 1 and len(filters[0].args) == 1 and not filters[0].keywords:
+        fa_ = filters[0].args[0]
+        is_null = (isinstance(fa_, ast.Compare) and len(fa_.ops) == 1 and isinstance(fa_.ops[0], (ast.Eq, ast.Is)) and sorted([u(fa_.left), u(fa_.comparators[0])]) == sorted(['None', hp_[1]])) \
+            or (isinstance(fa_, ast.Call) and isinstance(fa_.func, ast.Attribute) and fa_.func.attr in ('is_', '__eq__') and u(fa_.func.value) == hp_[1] and [u(a) for a in fa_.args] == ['None'])
+    joins_h = [c for c in calls_in(qn) if callee_attr(c) == 'join']
+    rep.add('R7', fh.site(qn), 'the count is over the genomes of this set whose id attribute is NULL', is_null and len(joins_h) == 1 and [u(a) for a in joins_h[0].args] == ['AnnotatedGenome.genome']
+            and all(reaching_def(fh.node, p_, enclosing_stmt(fh.node, qn)) is PARAM for p_ in hp_[:2]),
+            expected=f'{hp_[0]}.genomes.join(AnnotatedGenome.genome).filter({hp_[1]} == None).count()', found=qtext, stmt='null count query')
+    positive = ({('lt', '0', qtext)}, {('ne', '0', qtext)}, {('true', qtext)}, {('le', '1', qtext)})
+    zero = (('le', qtext, '0'), ('eq', '0', qtext), ('false', qtext), ('lt', qtext, '1'))
+    raises_h = [s for s in stmts_in(fh.node.body) if isinstance(s, ast.Raise)]
+    ok_r = bool(raises_h) and all(_facts(fh.node, gmh[r]) in positive for r in raises_h)
+    rep.add('R7', fh.site(raises_h[0] if raises_h else None), 'an error is raised exactly when that count is positive', ok_r, expected=f'raise under {qtext} > 0',
+            found=[sorted(_facts(fh.node, gmh[r])) for r in raises_h], stmt='null count raise')
+    ft_h = _fall_through_guards(fh.node, gmh)
+    end_h = _facts(fh.node, ft_h) if ft_h is not None else set()
+    rep.add('R7', fh.site(), 'the check completes only when no genome of the set lacks the id', any(z in end_h for z in zero) and not any(isinstance(s, ast.Return) for s in stmts_in(fh.node.body)),
+            expected=f'{qtext} == 0 on the normal exit', found=sorted(end_h), stmt='null count exit')
 
     # ---------------------------------------------------------------------------------- R2
     fm = m.func(f'{MOD}._map_ids_to_genomes')
@@ -636,7 +1097,7 @@ def check(ctx):
         if len(ss) != 1:
             return None, f'{len(ss)} stores to {selfp}.{attr}'
         s, val = ss[0]
-        if s not in cn.body:
+        if not _on_every_normal_path(cn, s):
             return None, f'{selfp}.{attr} is stored conditionally: {u(s)[:60]}'
         if val is None:
             return None, f'unrecognised store {u(s)[:60]}'
@@ -666,10 +1127,9 @@ def check(ctx):
     rep.add('R3', fc.site(sst), 'a missing id attribute is refused before matching', ('isnot', 'None', idt) in at, expected=f'{idt} is not None on the path', found=sorted(at),
             stmt='id_attr guard')
     # completeness: on the normal exit, len(self.genomes) == genomeset.genomes.count()
-    end_guards = list(gmc[cn.body[-1]])
+    end_guards = _fall_through_guards(cn, gmc)
     last = cn.body[-1]
-    if isinstance(last, ast.If) and not last.orelse and raises and all(isinstance(x, (ast.Raise, ast.Assign, ast.Expr)) for x in last.body) and isinstance(last.body[-1], ast.Raise):
-        end_guards.append((last.test, False))
+    rep.require(end_guards is not None, 'ReferenceDatabase.__init__: never completes normally')
     cnt = f'{gsetp}.genomes.count()'
     table = {cnt: lambda: ast.Name(id='SET_COUNT', ctx=ast.Load()),
              f'{sc_text}[0]': lambda: ast.Name(id='MATCHED_GENOMES', ctx=ast.Load()),
@@ -745,121 +1205,53 @@ def check(ctx):
     fl = m.func(f'{MOD}.ReferenceDatabase.locate_files')
     rep.functions.add(fl.qualname)
     ln = fl.node
-    gml = guard_map(ln)
-    dl = _Derive(ln, gml, 'locate_files', ordered=False)
-    helpers = [s for s in ln.body if isinstance(s, ast.FunctionDef)]
-
-    class _Rename(ast.NodeTransformer):
-        def __init__(self, mp_):
-            self.mp = mp_
-
-        def visit_Name(self, node):
-            return copy.deepcopy(self.mp[node.id]) if node.id in self.mp else node
-
-    def helper_summary(h, call):
-        """(facts holding after `h(args)` returned normally, [(raise statement, facts under which it is raised)]), in terms of the arguments."""
-        hp = [a.arg for a in h.args.args]
-        if len(call.args) > len(hp) or call.keywords or any(isinstance(a, ast.Starred) for a in call.args) or h.args.vararg or h.args.kwarg:
-            return set(), []
-        mp_ = dict(zip(hp, call.args))
-        if any(any(binds_deep(s, p) for s in h.body) for p in mp_):
-            return set(), []
-        key = lambda n: u(_Rename(mp_).visit(copy.deepcopy(n)))   # noqa: E731
-        hg = guard_map(h)
-        post = set()
-        ft = _fall_through_guards(h, hg)
-        if ft is not None and not any(isinstance(s, ast.Return) for s in stmts_in(h.body)):
-            post = _facts(h, ft, key)
-        return post, [(r, _facts(h, hg[r], key)) for r in stmts_in(h.body) if isinstance(r, ast.Raise)]
-
-    def facts_at(st):
-        """Path facts at statement st of locate_files, plus the post-conditions of the nested checking helpers called (as plain
-        statements of the function body) before the top-level statement that contains st."""
-        out = _facts(ln, gml[st])
-        top = block_path(ln, st)[0][1]
-        for s in ln.body[:top]:
-            if isinstance(s, ast.Expr) and isinstance(s.value, ast.Call) and isinstance(s.value.func, ast.Name):
-                for h in helpers:
-                    if h.name == s.value.func.id and h.lineno < s.lineno and len([x for x in helpers if x.name == h.name]) == 1:
-                        out |= helper_summary(h, s.value)[0]
-        return out
-
-    def error_sites(mname):
-        """Raise statements reached when the number of matches in `mname` is not 1."""
-        atom = ('ne', '1', f'len({mname})')
-        out = [r for r in stmts_in(ln.body) if isinstance(r, ast.Raise) and atom in _facts(ln, gml[r])]
-        for s in ln.body:
-            if isinstance(s, ast.Expr) and isinstance(s.value, ast.Call) and isinstance(s.value.func, ast.Name):
-                for h in helpers:
-                    if h.name == s.value.func.id and len([x for x in helpers if x.name == h.name]) == 1:
-                        out += [r for (r, f) in helper_summary(h, s.value)[1] if atom in f]
-        return out
-
     lastl = ln.body[-1]
     okr = isinstance(lastl, ast.Return) and isinstance(lastl.value, ast.Tuple) and len(lastl.value.elts) == 2
-    groups = []    # (returned position, collection name, suffix tuple, _Seq, statement that takes the file)
+    groups = []    # one _FileGroup per returned position
     if okr:
+        cx = _LocateCtx(m, fl)
         for pos, e in enumerate(lastl.value.elts):
-            rep.require(isinstance(e, ast.Name), f'locate_files: returned element {u(e)} is not a local')
-            ds = assigns_to(ln, e.id)
-            rep.require(len(ds) == 1 and def_value(ds[0]) is not None, f'locate_files: {e.id} is not bound exactly once by a plain assignment')
-            tv = _subst(ln, def_value(ds[0]), ds[0])     # `x = M[0]; file = x` is `file = M[0]`
-            mexpr = None
-            if isinstance(tv, ast.Call) and isinstance(tv.func, ast.Attribute) and tv.func.attr == 'pop' and not tv.keywords and (not tv.args or (len(tv.args) == 1 and is_const(tv.args[0], 0))):
-                mexpr = tv.func.value
-            elif isinstance(tv, ast.Subscript) and (is_const(tv.slice, 0) or u(tv.slice) == '-1'):
-                mexpr = tv.value
-            elif isinstance(tv, ast.Call) and u(tv.func) == 'next' and len(tv.args) == 1 and isinstance(tv.args[0], ast.Call) and u(tv.args[0].func) == 'iter' and len(tv.args[0].args) == 1:
-                mexpr = tv.args[0].args[0]
-            rep.require(isinstance(mexpr, ast.Name), f'locate_files: unrecognised way of taking the single file: {e.id} = {u(tv)[:80]}')
-            if reaching_def(ln, mexpr.id, ds[0]) is None and assigns_to(ln, mexpr.id):
-                rep.add('R5', fl.site(ds[0]), 'the file is taken from a match set that was built and checked before', False, expected=f'{mexpr.id} built and checked to hold exactly one file first',
-                        found=f'{u(ds[0])[:60]}: {mexpr.id} is only assigned later', stmt=f'single [{pos}]')
-                continue
-            sq = dl.seq_of(mexpr, ds[0])
-            rep.require(sq is not None, f'locate_files: {mexpr.id} is not a collection built by a recognised construction (comprehension / append loop)')
-            sufs, extra = None, []
-            for a in sq.filt:
-                if a[0] == 'in' and a[1] == f'{ELEM}.suffix' and sufs is None:
-                    try:
-                        sufs = tuple(ast.literal_eval(a[2]))
-                    except Exception:
-                        raise Undecided('locate_files: suffix group is not a literal')
-                else:
-                    extra.append(a)
-            rep.require(sufs is not None and all(isinstance(x, str) for x in sufs), f'locate_files: {mexpr.id} is not selected by `<entry>.suffix in <literal>`: {sorted(sq.filt)}')
-            groups.append([pos, mexpr.id, sufs, sq, ds[0], extra])
+            if isinstance(e, ast.Name):
+                ds = assigns_to(ln, e.id)
+                rep.require(len(ds) == 1 and def_value(ds[0]) is not None, f'locate_files: {e.id} is not bound exactly once by a plain assignment')
+                gr = cx.file_of(rep, def_value(ds[0]), ds[0], e.id)
+            else:
+                gr = cx.file_of(rep, e, lastl, f'result[{pos}]')      # the file expression written in the return itself
+            if gr is None:
+                continue        # a violation was recorded
+            gr.pos = pos
+            groups.append(gr)
         # further conditions on a group are tolerated only when they are implied: `suffix not in <a disjoint literal group>`
         for gr in groups:
-            for a in gr[5]:
+            for a in gr.extra:
                 implied = False
                 if a[0] == 'notin' and a[1] == f'{ELEM}.suffix':
                     try:
-                        implied = not set(ast.literal_eval(a[2])) & set(gr[2])
+                        implied = not set(ast.literal_eval(a[2])) & set(gr.sufs)
                     except Exception:
                         implied = False
-                rep.require(implied, f'locate_files: {gr[1]} is selected under a further condition the rule cannot evaluate: {a}')
+                rep.require(implied, f'locate_files: {gr.name} is selected under a further condition the rule cannot evaluate: {a}')
     rep.add('R5', fl.site(lastl), 'returns a (genome file, signature file) pair', okr, expected='(genomes_file, signatures_file)', found=u(lastl)[:80], stmt='locate result pair')
     rep.floor('R5', 'suffix groups in locate_files', len(groups), 2)
-    sufs = sorted(tuple(sorted(g[2])) for g in groups)
+    sufs = sorted(tuple(sorted(g.sufs)) for g in groups)
     rep.add('R5', fl.site(), 'the two groups are the genome-database and signature-file extensions', sufs == [('.db', '.gdb'), ('.gs', '.h5')], expected="('.gdb','.db'), ('.gs','.h5')",
             found=sufs, stmt='suffix groups')
-    for pos, name, sfx, sq, take, _ in groups:
-        fa = facts_at(take)
-        ok = ('eq', '1', f'len({name})') in fa
-        rep.add('R5', fl.site(take), f'{sfx}: the match set is checked to hold exactly one file before one is taken', ok, expected=f'len({name}) == 1 established before {u(take)[:40]}',
-                found=sorted(fa), stmt=f'single {sfx}')
-        errs = error_sites(name)
-        rep.add('R5', fl.site(errs[0] if errs else take), f'{sfx}: DatabaseLoadError is raised when the number of matches is not 1',
-                bool(errs) and all((raised_name(r) or '').endswith('DatabaseLoadError') for r in errs), expected='raise DatabaseLoadError under len(matches) != 1',
-                found=[u(r)[:50] for r in errs], stmt=f'single-match error {sfx}')
-        srcx, wrapped = _strip_materialise(_subst(ln, sq.src_node, sq.site if isinstance(sq.site, ast.stmt) else enclosing_stmt(ln, sq.site, dl.pm)))
-        shared_iter = sq.src[0][0] == 'def' and not wrapped and any(o[3].src[0] == sq.src[0] and o[3].site is not sq.site for o in groups if o[1] != name)
-        rep.add('R5', fl.site(sq.site), f'{sfx}: candidates are the direct children of the given directory', sq.elt == ELEM and not sq.notes and not shared_iter
-                and u(srcx) in ('path.iterdir()', 'Path(path).iterdir()'), expected='entries of path.iterdir()',
-                found=sq.describe() + f' [{u(srcx)}]' + (' (one iterator consumed by both groups)' if shared_iter else ''), stmt=f'candidates {sfx}')
-    gpos = next((g[0] for g in groups if '.gdb' in g[2]), None)
-    spos = next((g[0] for g in groups if '.gs' in g[2]), None)
+    for gr in groups:
+        sfx, sq = gr.sufs, gr.sq
+        rep.functions.add(gr.fi.qualname)
+        rep.add('R5', gr.fi.site(gr.take), f'{sfx}: the match set is checked to hold exactly one file before one is taken', gr.single_ok, expected=gr.single_expected,
+                found=gr.single_found, stmt=f'single {sfx}')
+        rep.add('R5', gr.fi.site(gr.errs[0] if gr.errs else gr.take), f'{sfx}: DatabaseLoadError is raised when the number of matches is not 1',
+                bool(gr.errs) and gr.errs_complete and all((raised_name(r) or '').endswith('DatabaseLoadError') for r in gr.errs), expected='raise DatabaseLoadError under len(matches) != 1',
+                found=[u(r)[:50] for r in gr.errs] + ([] if gr.errs_complete else ['(and a path that neither returns the file nor raises)']), stmt=f'single-match error {sfx}')
+        shared_iter = sq.src[0][0] == 'def' and not gr.wrapped and any(o.sq.src[0] == sq.src[0] and o.sq.site is not sq.site for o in groups if o is not gr)
+        rep.add('R5', gr.fi.site(sq.site), f'{sfx}: candidates are the direct children of the given directory', sq.elt == ELEM and not sq.notes and not shared_iter
+                and gr.src_text in ('path.iterdir()', 'Path(path).iterdir()'), expected='entries of path.iterdir()',
+                found=sq.describe() + f' [{gr.src_text}]' + (' (one iterator consumed by both groups)' if shared_iter else ''), stmt=f'candidates {sfx}')
+    if any(g.lazy for g in groups):
+        rep.trusted.append('Path.iterdir() yields Path objects, never None (so `next(it, None) is None` means the stream is exhausted)')
+    gpos = next((g.pos for g in groups if '.gdb' in g.sufs), None)
+    spos = next((g.pos for g in groups if '.gs' in g.sufs), None)
     rep.add('R5', fl.site(lastl), 'returns (genome file, signature file) in that order', (gpos, spos) == (0, 1), expected='(genomes_file, signatures_file)', found=u(lastl)[:80], stmt='locate result order')
     # loaders
     fload = m.func(f'{MOD}.ReferenceDatabase.load')
@@ -966,6 +1358,68 @@ _SUBSET_OLD = "\tgenomes_out = []\n\tidxs_out = []\n\n\tfor i, g in enumerate(ge
 _BYID_OLD = "\tif strict:\n\t\treturn [d[id_] for id_ in ids]\n\telse:\n\t\treturn [d.get(id_) for id_ in ids]\n"
 _INIT_OLD = "\t\tself.genomes, self.sig_indices = genomes_by_id_subset(genomeset, id_attr, signatures.ids)\n\n\t\tn = genomeset.genomes.count()\n\t\tif len(self.genomes) != n:\n\t\t\tmissing = n - len(self.genomes)\n"
 _IDLOOP_OLD = "\t\tfor allowed_name in Genome.ID_ATTRS:\n\t\t\tallowed = getattr(Genome, allowed_name)\n\t\t\tif attr is allowed:\n\t\t\t\treturn attr\n"
+_SUBSET_CALL_OLD = "\tgenomes = genomes_by_id(genomeset, id_attr, ids, strict=False)\n" + _SUBSET_OLD
+_PROLOGUE = "\tid_attr = _check_genome_id_attr(id_attr)\n\t_check_genomes_have_ids(genomeset, id_attr)\n\td = _map_ids_to_genomes(genomeset, id_attr)\n"
+_ONEPASS = "\tgenomes_out = []\n\tidxs_out = []\n\n\tfor i, id_ in enumerate(ids):\n\t\tg = d.get(id_)\n\t\tif g is None:\n\t\t\tcontinue\n\t\tgenomes_out.append(g)\n\t\tidxs_out.append(i)\n"
+_SUBSET_DEF = "def genomes_by_id_subset(genomeset: ReferenceGenomeSet,"
+_TABLE_HELPER = "def _id_table(gset, attr):\n\tattr = _check_genome_id_attr(attr)\n\t_check_genomes_have_ids(gset, attr)\n\treturn _map_ids_to_genomes(gset, attr)\n\n\n"
+_NULLCALL = "\t_check_genomes_have_ids(genomeset, id_attr)\n\td = _map_ids_to_genomes(genomeset, id_attr)\n\tif strict:"
+_CLASS_DEF = "class ReferenceDatabase:\n"
+_INIT_TAIL_OLD = """\t\tid_attr = signatures.meta.id_attr
+\t\tif id_attr is None:
+\t\t\traise TypeError('id_attr field of signatures metadata cannot be None')
+
+\t\tself.genomes, self.sig_indices = genomes_by_id_subset(genomeset, id_attr, signatures.ids)
+
+\t\tn = genomeset.genomes.count()
+\t\tif len(self.genomes) != n:
+\t\t\tmissing = n - len(self.genomes)
+\t\t\traise ValueError(f'{missing} of {n} genomes not matched to signature IDs. Is the id_attr attribute of the signatures metadata correct?')
+"""
+_INIT_SPLIT = "\t\tself.genomes, self.sig_indices = _pair_up(genomeset, signatures)\n\t\t_require_complete(genomeset, self.genomes)\n"
+_SPLIT_HELPERS = """def _pair_up(gset, sigs):
+\tattr = sigs.meta.id_attr
+\tif attr is not None:
+\t\treturn genomes_by_id_subset(gset, attr, sigs.ids)
+
+\traise TypeError('id_attr field of signatures metadata cannot be None')
+
+
+def _require_complete(gset, matched):
+\ttotal = gset.genomes.count()
+\tif len(matched) == total:
+\t\treturn
+
+\traise ValueError(f'{total - len(matched)} of {total} genomes not matched to signature IDs.')
+
+
+"""
+_LOADSET_DEF = "def load_genomeset(db_file: 'FilePath')"
+_LOCATE_DELEGATED = "\t\tgenomes_file = _the_only(path, _GENOME_EXTS, 'genome database (.gdb or .db)')\n\t\tsignatures_file = _the_only(path, _SIGNATURE_EXTS, 'signature (.gs or .h5)')\n"
+_EXT_CONSTS = "_GENOME_EXTS = ('.gdb', '.db')\n_SIGNATURE_EXTS = ('.gs', '.h5')\n\n\n"
+_ONLY_EAGER = _EXT_CONSTS + """def _the_only(directory, exts, desc):
+\tcandidates = [f for f in directory.iterdir() if f.suffix in exts]
+\tif len(candidates) != 1:
+\t\traise DatabaseLoadError(f'{"Multiple" if candidates else "No"} {desc} files found in directory {directory}', directory=directory)
+\treturn candidates[0]
+
+
+"""
+_ONLY_LAZY = _EXT_CONSTS + """def _the_only(directory, exts, desc):
+\tstream = (f for f in directory.iterdir() if f.suffix in exts)
+\tfirst = next(stream, None)
+
+\tif first is None:
+\t\thow_many = 'No'
+\telif next(stream, None) is not None:
+\t\thow_many = 'Multiple'
+\telse:
+\t\treturn first
+
+\traise DatabaseLoadError(f'{how_many} {desc} files found in directory {directory}', directory=directory)
+
+
+"""
 _LOCATE_OLD = """\t\tdef check_single_match(matches, desc: str):
 \t\t\tn = len(matches)
 \t\t\tif n != 1:
@@ -1124,4 +1578,71 @@ VARIANTS = [
     V('local index list dropped when the counts agree (seeded C04a, reduced)', 'B', _Q, "\tdmat = jaccarddist_matrix(\n",
       "\tsig_indices = db.sig_indices if len(db.sig_indices) < len(db.signatures) else None\n\tdmat = jaccarddist_matrix(\n", 'R6',
       also=((_Q, "\t\tref_indices=db.sig_indices,\n", "\t\tref_indices=sig_indices,\n"),)),
+    # ---- second pass: lookups made by the subset function itself, NULL-id guard (R7), split constructor, delegated / lazy single-file search
+    V('E: subset looks the ids up itself in one pass', 'E', _R, _SUBSET_CALL_OLD, _PROLOGUE + _ONEPASS),
+    V('E: subset looks the ids up itself, id map from an extracted helper', 'E', _R, _SUBSET_CALL_OLD, "\td = _id_table(genomeset, id_attr)\n" + _ONEPASS, also=((_R, _SUBSET_DEF, _TABLE_HELPER + _SUBSET_DEF),)),
+    V('own lookup: id attribute not validated', 'B', _R, _SUBSET_CALL_OLD, "\t_check_genomes_have_ids(genomeset, id_attr)\n\td = _map_ids_to_genomes(genomeset, id_attr)\n" + _ONEPASS, 'R4'),
+    V('own lookup: NULL-id check dropped', 'B', _R, _SUBSET_CALL_OLD, "\tid_attr = _check_genome_id_attr(id_attr)\n\td = _map_ids_to_genomes(genomeset, id_attr)\n" + _ONEPASS, 'R7'),
+    V('own lookup: strict subscript (unrelated signature raises KeyError)', 'B', _R, _SUBSET_CALL_OLD, _PROLOGUE + _ONEPASS.replace("g = d.get(id_)", "g = d[id_]"), 'R1'),
+    V('own lookup: index appended before the skip', 'B', _R, _SUBSET_CALL_OLD, _PROLOGUE + _ONEPASS.replace("\t\tg = d.get(id_)\n", "\t\tidxs_out.append(i)\n\t\tg = d.get(id_)\n").replace("\t\tgenomes_out.append(g)\n\t\tidxs_out.append(i)\n", "\t\tgenomes_out.append(g)\n"), 'R1'),
+    V('own lookup: the id itself is collected', 'B', _R, _SUBSET_CALL_OLD, _PROLOGUE + _ONEPASS.replace("genomes_out.append(g)", "genomes_out.append(id_)"), 'R1'),
+    V('own lookup: helper builds the map for another attribute', 'B', _R, _SUBSET_CALL_OLD, "\td = _id_table(genomeset, 'key')\n" + _ONEPASS, 'R4', also=((_R, _SUBSET_DEF, _TABLE_HELPER + _SUBSET_DEF),)),
+    V('E: lookup list inlined as an unfiltered comprehension', 'E', _R, "\tgenomes = genomes_by_id(genomeset, id_attr, ids, strict=False)\n", _PROLOGUE + "\tgenomes = [d.get(id_) for id_ in ids]\n"),
+    V('inlined lookup list drops the unknown ids (positions shift)', 'B', _R, "\tgenomes = genomes_by_id(genomeset, id_attr, ids, strict=False)\n", _PROLOGUE + "\tgenomes = [d.get(id_) for id_ in ids if id_ in d]\n", 'R1'),
+    V('appended genome list never filled', 'B', _R, "\t\t\tgenomes_out.append(g)\n", "", 'R1'),
+    V('NULL-id check call deleted', 'B', _R, _NULLCALL, "\td = _map_ids_to_genomes(genomeset, id_attr)\n\tif strict:", 'R7'),
+    V('NULL-id check: polarity inverted', 'B', _R, "\tif c > 0:\n\t\traise RuntimeError", "\tif not c > 0:\n\t\traise RuntimeError", 'R7'),
+    V('NULL-id check: raises for zero too', 'B', _R, "\tif c > 0:\n\t\traise RuntimeError", "\tif c >= 0:\n\t\traise RuntimeError", 'R7'),
+    V('NULL-id check: tolerates one genome without id', 'B', _R, "\tif c > 0:\n\t\traise RuntimeError", "\tif c > 1:\n\t\traise RuntimeError", 'R7'),
+    V('NULL-id check: counts the genomes that HAVE an id', 'B', _R, ".filter(id_attr == None)", ".filter(id_attr != None)", 'R7'),
+    V('NULL-id check: arguments swapped', 'B', _R, "\t_check_genomes_have_ids(genomeset, id_attr)\n\td = ", "\t_check_genomes_have_ids(id_attr, genomeset)\n\td = ", 'R7'),
+    V('E: NULL-id count tested by truthiness', 'E', _R, "\tif c > 0:\n\t\traise RuntimeError", "\tif c:\n\t\traise RuntimeError"),
+    V('E: NULL-id count tested with != 0', 'E', _R, "\tif c > 0:\n\t\traise RuntimeError", "\tif c != 0:\n\t\traise RuntimeError"),
+    V('NULL-id count tested for negative only', 'B', _R, "\tif c > 0:\n\t\traise RuntimeError", "\tif c < 0:\n\t\traise RuntimeError", 'R7'),
+    V('E: NULL-id check only when None is a key of the id map', 'E', _R, _NULLCALL, "\td = _map_ids_to_genomes(genomeset, id_attr)\n\tif None in d:\n\t\t_check_genomes_have_ids(genomeset, id_attr)\n\tif strict:"),
+    V('NULL-id check only when None is NOT a key', 'B', _R, _NULLCALL, "\td = _map_ids_to_genomes(genomeset, id_attr)\n\tif None not in d:\n\t\t_check_genomes_have_ids(genomeset, id_attr)\n\tif strict:", 'R7'),
+    V('NULL-id check only when None is among the requested ids', 'B', _R, _NULLCALL, "\td = _map_ids_to_genomes(genomeset, id_attr)\n\tif None in ids:\n\t\t_check_genomes_have_ids(genomeset, id_attr)\n\tif strict:", 'R7'),
+    V('E: None key of the id map raises directly', 'E', _R, _NULLCALL, "\td = _map_ids_to_genomes(genomeset, id_attr)\n\tif None in d:\n\t\traise RuntimeError('genomes missing value for ID attribute')\n\tif strict:"),
+    V('None key raises only in strict mode', 'B', _R, _NULLCALL, "\td = _map_ids_to_genomes(genomeset, id_attr)\n\tif None in d and strict:\n\t\traise RuntimeError('genomes missing value for ID attribute')\n\tif strict:", 'R7'),
+    V('NULL-id check after the strict return', 'B', _R, _NULLCALL + "\n\t\treturn [d[id_] for id_ in ids]\n\telse:\n", "\td = _map_ids_to_genomes(genomeset, id_attr)\n\tif strict:\n\t\treturn [d[id_] for id_ in ids]\n\telse:\n\t\t_check_genomes_have_ids(genomeset, id_attr)\n", 'R7'),
+    V('E: constructor split into a matching step (inverted guard) and a completeness step (early return)', 'E', _R, _INIT_TAIL_OLD, _INIT_SPLIT, also=((_R, _CLASS_DEF, _SPLIT_HELPERS + _CLASS_DEF),)),
+    V('split constructor: matching step guard inverted the wrong way', 'B', _R, _INIT_TAIL_OLD, _INIT_SPLIT, 'R3', also=((_R, _CLASS_DEF, _SPLIT_HELPERS.replace("if attr is not None:", "if attr is None:") + _CLASS_DEF),)),
+    V('split constructor: completeness step returns early for too few as well', 'B', _R, _INIT_TAIL_OLD, _INIT_SPLIT, 'R3', also=((_R, _CLASS_DEF, _SPLIT_HELPERS.replace("if len(matched) == total:", "if len(matched) <= total:") + _CLASS_DEF),)),
+    V('split constructor: completeness step checks the index list of another call', 'B', _R, _INIT_TAIL_OLD, _INIT_SPLIT.replace("_require_complete(genomeset, self.genomes)", "_require_complete(genomeset, signatures.ids)"), 'R3',
+      also=((_R, _CLASS_DEF, _SPLIT_HELPERS + _CLASS_DEF),)),
+    V('E: store in the arm whose alternative raises', 'E', _R, "\t\tif id_attr is None:\n\t\t\traise TypeError('id_attr field of signatures metadata cannot be None')\n\n\t\tself.genomes, self.sig_indices = genomes_by_id_subset(genomeset, id_attr, signatures.ids)\n",
+      "\t\tif id_attr is not None:\n\t\t\tself.genomes, self.sig_indices = genomes_by_id_subset(genomeset, id_attr, signatures.ids)\n\t\telse:\n\t\t\traise TypeError('id_attr field of signatures metadata cannot be None')\n"),
+    V('store in one arm, the other arm falls through', 'B', _R, "\t\tif id_attr is None:\n\t\t\traise TypeError('id_attr field of signatures metadata cannot be None')\n\n\t\tself.genomes, self.sig_indices = genomes_by_id_subset(genomeset, id_attr, signatures.ids)\n",
+      "\t\tif id_attr is not None:\n\t\t\tself.genomes, self.sig_indices = genomes_by_id_subset(genomeset, id_attr, signatures.ids)\n\t\telse:\n\t\t\tself.genomes, self.sig_indices = [], []\n", 'R3'),
+    V('E: single-file search delegated to a module-level function (suffix groups as module constants)', 'E', _R, _LOCATE_OLD, _LOCATE_DELEGATED, also=((_R, _LOADSET_DEF, _ONLY_EAGER + _LOADSET_DEF),)),
+    V('delegated search: only several files are refused', 'B', _R, _LOCATE_OLD, _LOCATE_DELEGATED, 'R5', also=((_R, _LOADSET_DEF, _ONLY_EAGER.replace("if len(candidates) != 1:", "if len(candidates) > 1:") + _LOADSET_DEF),)),
+    V('delegated search: suffix constants passed crossed', 'B', _R, _LOCATE_OLD, _LOCATE_DELEGATED.replace("_GENOME_EXTS", "_TMP").replace("_SIGNATURE_EXTS", "_GENOME_EXTS").replace("_TMP", "_SIGNATURE_EXTS"), 'R5',
+      also=((_R, _LOADSET_DEF, _ONLY_EAGER + _LOADSET_DEF),)),
+    V('delegated search: helper lists the parent directory', 'B', _R, _LOCATE_OLD, _LOCATE_DELEGATED, 'R5', also=((_R, _LOADSET_DEF, _ONLY_EAGER.replace("directory.iterdir()", "directory.parent.iterdir()") + _LOADSET_DEF),)),
+    V('delegated search: wrong error class', 'B', _R, _LOCATE_OLD, _LOCATE_DELEGATED, 'R5', also=((_R, _LOADSET_DEF, _ONLY_EAGER.replace("raise DatabaseLoadError(", "raise RuntimeError(").replace(", directory=directory)", ")") + _LOADSET_DEF),)),
+    V('E: lazy search, at most two matches pulled with next(stream, None)', 'E', _R, _LOCATE_OLD, _LOCATE_DELEGATED, also=((_R, _LOADSET_DEF, _ONLY_LAZY + _LOADSET_DEF),)),
+    V('lazy search: a second match is not looked for', 'B', _R, _LOCATE_OLD, _LOCATE_DELEGATED, 'R5',
+      also=((_R, _LOADSET_DEF, _ONLY_LAZY.replace("\telif next(stream, None) is not None:\n\t\thow_many = 'Multiple'\n", "") + _LOADSET_DEF),)),
+    V('lazy search: second match test inverted', 'B', _R, _LOCATE_OLD, _LOCATE_DELEGATED, 'R5', also=((_R, _LOADSET_DEF, _ONLY_LAZY.replace("elif next(stream, None) is not None:", "elif next(stream, None) is None:") + _LOADSET_DEF),)),
+    V('lazy search: the second match is returned', 'B', _R, _LOCATE_OLD, _LOCATE_DELEGATED, 'R5', also=((_R, _LOADSET_DEF, _ONLY_LAZY.replace("\tfirst = next(stream, None)\n", "\tnext(stream, None)\n\tfirst = next(stream, None)\n") + _LOADSET_DEF),)),
+    V('lazy search: suffix test inverted', 'B', _R, _LOCATE_OLD, _LOCATE_DELEGATED, 'R5', also=((_R, _LOADSET_DEF, _ONLY_LAZY.replace("if f.suffix in exts", "if f.suffix not in exts") + _LOADSET_DEF),)),
+    V('match set selects the entries NOT in the suffix group', 'B', _R, "if f.suffix in ('.gdb', '.db')}", "if f.suffix not in ('.gdb', '.db')}", 'R5'),
+    # ---- shapes produced by the second-stage normalisation (N9-N12), also written by hand
+    V('E: one return, conditional expression on strict', 'E', _R, _BYID_OLD, "\treturn [d[id_] for id_ in ids] if strict else [d.get(id_) for id_ in ids]\n"),
+    V('one return, conditional expression arms swapped', 'B', _R, _BYID_OLD, "\treturn [d.get(id_) for id_ in ids] if strict else [d[id_] for id_ in ids]\n", 'R1'),
+    V('E: signature file taken inside the return', 'E', _R, "\t\tsignatures_file = signatures_matches.pop()\n\n\t\treturn genomes_file, signatures_file\n", "\t\treturn genomes_file, signatures_matches.pop()\n"),
+    V('signature file taken inside the return, unchecked', 'B', _R, "\t\tcheck_single_match(signatures_matches, 'signature (.gs or .h5)')\n\t\tsignatures_file = signatures_matches.pop()\n\n\t\treturn genomes_file, signatures_file\n",
+      "\t\treturn genomes_file, signatures_matches.pop()\n", 'R5'),
+    V('file taken from a second, unchecked listing written as an unnamed comprehension', 'B', _R, "\t\tsignatures_file = signatures_matches.pop()\n", "\t\tsignatures_file = {f for f in path.iterdir() if f.suffix in ('.gs', '.h5')}.pop()\n", 'R5'),
+    V('genome list returned as an empty literal', 'B', _R, "\treturn genomes_out, idxs_out\n", "\treturn [], idxs_out\n", 'R1'),
+    V('first match of an inline generator, no second look', 'B', _R, "\t\tcheck_single_match(genomes_matches, 'genome database (.gdb or .db)')\n\t\tgenomes_file = genomes_matches.pop()\n",
+      "\t\tgenomes_file = next((f for f in path.iterdir() if f.suffix in ('.gdb', '.db')), None)\n", 'R5'),
+    V('E: lookup function selected by an if/else statement on strict', 'E', _R, _BYID_OLD, "\tif strict:\n\t\tlookup = d.__getitem__\n\telse:\n\t\tlookup = d.get\n\treturn [lookup(id_) for id_ in ids]\n"),
+    V('lookup function selected by an if/else statement, arms swapped', 'B', _R, _BYID_OLD, "\tif strict:\n\t\tlookup = d.get\n\telse:\n\t\tlookup = d.__getitem__\n\treturn [lookup(id_) for id_ in ids]\n", 'R1'),
+    V('E: id map reaches the lookup through a plain copy', 'E', _R, "\td = _map_ids_to_genomes(genomeset, id_attr)\n\tif strict:", "\ttable = _map_ids_to_genomes(genomeset, id_attr)\n\td = table\n\tif strict:"),
+    V('plain copy of a map built for another genome set', 'B', _R, "\td = _map_ids_to_genomes(genomeset, id_attr)\n\tif strict:", "\ttable = _map_ids_to_genomes(genomeset.__class__(), id_attr)\n\td = table\n\tif strict:", 'R1'),
+    V('E: listed once, helper filters with an append loop (second group is built after the first was checked)', 'E', _R, _LOCATE_OLD,
+      _LOCATE_LISTED.replace("\t\t\tmatches = [f for f in files if f.suffix in extensions]\n", "\t\t\tmatches = []\n\t\t\tfor f in files:\n\t\t\t\tif f.suffix in extensions:\n\t\t\t\t\tmatches.append(f)\n")),
+    V('listed once, append-loop helper accepts several', 'B', _R, _LOCATE_OLD,
+      _LOCATE_LISTED.replace("\t\t\tmatches = [f for f in files if f.suffix in extensions]\n", "\t\t\tmatches = []\n\t\t\tfor f in files:\n\t\t\t\tif f.suffix in extensions:\n\t\t\t\t\tmatches.append(f)\n").replace("if len(matches) == 1:", "if len(matches) >= 1:"), 'R5'),
 ]
